@@ -52,8 +52,24 @@ def lineStartsWithPrefixOp (text : Bytes) : Bool :=
       else go rest false false
   go text true true
 
-def chunkClass (texts : List Bytes) : String :=
-  if texts.any lineStartsWithPrefixOp then "statement-starts-with-prefix-operator" else ""
+/-- the statements of a dumped program `(stmts X1 X2 …)` as text -/
+def innerStmts (ast : String) : String :=
+  if ast.startsWith "(stmts " then ((ast.drop 7).dropEnd 1).toString else ""
+
+/-- do the re-printed chunks parse back to the statements of the script? (when not, the printer changed the
+program: one of the print/parse findings recorded for C02) -/
+def reparsesSame (asts : List String) : Bool :=
+  match asts with
+  | [] => true
+  | whole :: chunks => " ".intercalate ((chunks.map innerStmts).filter (· != "")) == innerStmts whole
+
+/-- class of a failing case: the chunk texts are RE-PRINTED statements, so the print/parse findings recorded for
+C02/C03 apply.  `statement-starts-with-prefix-operator` is recognised on the text; any other way in which the
+re-printed chunks parse back to different statements (`a * (b * c)` printed `a * b * c`, …: the other normal-mode
+classes of lean/Grol/Classes.lean) is reported as `printer-changes-program`. -/
+def chunkClass (texts : List Bytes) (asts : List String) : String :=
+  if texts.any lineStartsWithPrefixOp then "statement-starts-with-prefix-operator"
+  else if !reparsesSame asts then "printer-changes-program" else ""
 
 def runCase (inp obs : String) : CaseResult :=
   if obs == "P" then { model := "P", agree := true, stmtModel := true, stmtImpl := true, nontrivial := false, tags := ["parse-error"] } else
@@ -75,10 +91,10 @@ def runCase (inp obs : String) : CaseResult :=
         let rc ← runSession cfg chunks
         pure (rw ++ rc)
     let texts := ((splitOn texts ',').filterMap bytesOfHex)
-    let klass := if stmtImpl then "" else chunkClass texts
+    let klass := if stmtImpl then "" else chunkClass texts c.asts
     let nChunks := c.asts.length - 1
     let clean := a.head?.map cleanRun |>.getD false
-    let tags := [if clean then "error-free" else "whole-has-error",
+    let tags := [if clean then "error-free" else "whole-has-error", if reparsesSame c.asts then "reparses-same" else "printer-changed-program",
                  if mask == "0" then "one-chunk" else if nChunks ≤ 2 then "2-chunks" else if nChunks ≤ 4 then "3-4-chunks" else "5+chunks"]
     match runBoth { base with cacheOn := true }, runBoth { base with cacheOn := false } with
     | .ok r1, .ok r0 =>
